@@ -250,21 +250,23 @@ def _rec_fields(obj, fields):
 
 
 def _find_record(loc, enc, le, got, fields, exp_off):
-    """Where in the file do the bytes of the decoded record sit (other than the expected place)?
-    -> offset relative to the section start, or None."""
-    filedata, sec_off = loc
+    """Where in the file do the bytes of the decoded record sit (other than the expected place)?  Occurrences inside
+    the section are preferred.  -> offset relative to the section start, or None."""
+    filedata, sec_off, sec_len = loc
     try:
         if not all(_isint(got[f]) for f in fields):
             return None
         blob = enc(le, got)
     except Exception:  # noqa
         return None
+    found = []
     k = filedata.find(blob)
-    while k >= 0:
+    while k >= 0 and len(found) < 64:
         if k != sec_off + exp_off:
-            return k - sec_off
+            found.append(k - sec_off)
         k = filedata.find(blob, k + 1)
-    return None
+    inside = [o for o in found if 0 <= o < sec_len]
+    return inside[0] if inside else (found[0] if found else None)
 
 
 def cmp_record(ctx, case, what, via, got, exp_fields, fields, where, loc, enc, exp_off):
@@ -276,7 +278,7 @@ def cmp_record(ctx, case, what, via, got, exp_fields, fields, where, loc, enc, e
     at = _find_record(loc, enc, case['le'], got, fields, exp_off)
     if at is not None:
         ctx.fail('%s|wrong-offset|via=%s' % (what, via),
-                 '%s: expected the record at section offset %#x %r; decoded %r, which is what sits at section offset %#x' % (
+                 '%s: expected the record at section offset %#x %r; decoded %r, the bytes found at section offset %#x' % (
                      where, exp_off, exp_fields, got, at), case)
     else:
         ctx.fail('%s|fields|%s' % (what, '+'.join(bad)), '%s (section offset %#x): encoded %r decoded %r' % (
@@ -606,7 +608,7 @@ def run_case(ctx, case):
         except Exception as e:  # noqa
             ctx.fail_exc('ver%s.get_section' % kind, e, case)
             continue
-        loc = (data, info['R']['sh'][idx[kind]]['sh_offset'])
+        loc = (data, info['R']['sh'][idx[kind]]['sh_offset'], len(info[kind + '_data']))
         check_version_section(ctx, case, kind, sec, info[kind], loc, case['queries'].get(kind, []))
     if 'versym' in idx:
         try:
